@@ -95,6 +95,11 @@ func statsOf(in *Intent) intentStats {
 		if len(a.Meta.Annos) > 0 {
 			cl["app_annotation"] = true
 		}
+		for _, v := range a.Meta.Annos {
+			if len(v.lines) > 0 {
+				cl["multi_line_annotation"] = true
+			}
+		}
 		if len(a.Collector) > 0 {
 			cl["collector"] = true
 			for _, l := range a.Collector {
